@@ -80,4 +80,52 @@ target("breezy/tag.py::InterTags._merge_to",
        raises={"Exception": lambda c: Or(c.g.dest == c.old.g.dest, TRUE)},
        canary=lambda c: Len(c.result[1]) == 0)
 
-undecided("git and in-memory tag stores; serialisation of the tag dictionary (bencode is external)")
+undecided("git and in-memory tag stores; the bencode byte format itself (external): bdecode(bencode(x)) == x is assumed")
+
+# ---- the tag file: names are stored utf-8 encoded in a bencoded dictionary and read back by decoding
+BTAGS = MapS(BYTES, BYTES)
+Enc8 = ufunc("Enc8", STR, BYTES)
+Dec8 = ufunc("Dec8", BYTES, STR)
+Ben = ufunc("Ben", BTAGS, BYTES)
+Bdec = ufunc("Bdec", BYTES, BTAGS)
+B0 = ufunc("b0", BYTES)
+assumed("k.encode", pure=True, returns=lambda c: Enc8(c.k), ensures=lambda c: Dec8(c.result) == c.k,
+        raises={"UnicodeEncodeError": None}, note="utf-8 encoding is injective: decoding gives the name back")
+assumed("k.decode", pure=True, returns=lambda c: Dec8(c.k), raises={"UnicodeDecodeError": None})
+assumed("bencode.bencode", pure=True, returns=lambda c: Ben(c.args[0]))
+assumed("bencode.bdecode", pure=True, returns=lambda c: Bdec(c.args[0]), raises={"ValueError": None})
+
+BT = "breezy/bzr/tag.py::BasicTags."
+target(BT + "_serialize_tag_dict", params=dict(tag_dict=TAGS), locals=dict(td=BTAGS), result=BYTES,
+       ensures={"bencodes_the_encoded_names": lambda c: c.result == Ben(c.td),
+                "every_tag_is_stored_under_its_utf8_name": lambda c: Implies(
+                    In(N0(), c.old.tag_dict), And(In(Enc8(N0()), c.td), c.td[Enc8(N0())] == c.old.tag_dict[N0()])),
+                "nothing_else_is_stored": lambda c: Implies(
+                    In(B0(), c.td), exists([STR], lambda n: And(In(n, c.old.tag_dict), Enc8(n) == B0())))},
+       raises={"UnicodeEncodeError": True}, canary=lambda c: c.td == BTAGS.empty())
+
+target(BT + "_deserialize_tag_dict", params=dict(tag_content=BYTES), locals=dict(r=TAGS), result=TAGS,
+       loops={1: loop(r"for k, v in bencode\.bdecode\(tag_content\)\.items\(\)", done="done",
+                      inv=lambda c: And(Implies(In(B0(), c.done), In(Dec8(B0()), c.r)),
+                                        Implies(In(N0(), c.r), exists([BYTES], lambda b: And(In(b, c.done), Dec8(b) == N0(),
+                                                                                              c.r[N0()] == Bdec(c.old.tag_content)[b])))))},
+       ensures={"every_stored_name_is_read_back": lambda c: Implies(
+                    And(c.old.tag_content != lift(b""), In(B0(), Bdec(c.old.tag_content))), In(Dec8(B0()), c.result)),
+                "every_tag_read_was_stored": lambda c: Implies(
+                    In(N0(), c.result), And(c.old.tag_content != lift(b""),
+                                            exists([BYTES], lambda b: And(In(b, Bdec(c.old.tag_content)), Dec8(b) == N0(),
+                                                                          c.result[N0()] == Bdec(c.old.tag_content)[b]))))},
+       raises={"ValueError": True}, canary=lambda c: c.result == TAGS.empty())
+
+# round trip, as a lemma over the two contracts (with bdecode(bencode(x)) = x and utf-8 decode(encode(n)) = n)
+lemma("tag_dictionary_round_trips",
+      [("d", TAGS), ("td", BTAGS), ("r", TAGS)],
+      lambda d, td, r: [
+          forall([STR], lambda n: Dec8(Enc8(n)) == n),
+          # serialize contract
+          forall([STR], lambda n: Implies(In(n, d), And(In(Enc8(n), td), td[Enc8(n)] == d[n]))),
+          forall([BYTES], lambda b: Implies(In(b, td), exists([STR], lambda n: And(In(n, d), Enc8(n) == b)))),
+          # deserialize contract on bdecode(bencode(td)) == td
+          forall([BYTES], lambda b: Implies(In(b, td), In(Dec8(b), r))),
+          forall([STR], lambda n: Implies(In(n, r), exists([BYTES], lambda b: And(In(b, td), Dec8(b) == n, r[n] == td[b]))))],
+      lambda d, td, r: And(In(N0(), r) == In(N0(), d), Implies(In(N0(), d), r[N0()] == d[N0()])))
